@@ -77,6 +77,9 @@ def unit_escape_pairs(a):
     """a backslash followed by ANY character: only n, | and the backslash itself mean something"""
     stats = Stats()
     chars = [chr(i) for i in range(1, 0x250) if chr(i) not in "\n\r"] + list("\u2028\u3000\uff5c\uff3c\U0001F600")
+    # rows that mean something in OTHER table syntaxes (Markdown separator rows, reST borders) are plain rows here
+    sweep(stats, ({"sub": "row", "row": r, "doc": True} for r in ["| - |", "| --- | --- |", "| :-: |", "|-|", "| - | x |", "|---|---|", "| -- | :-: |", "| :-- | --: |", "| = | = |", "|===|", "| + | + |", "|:|",
+                                                                 "| - | - | - |", "| -|- |", "|--", "| --- |---"]), check_row)
     sweep(stats, ({"sub": "row", "row": ctxt % ("\\" + c), "doc": True} for c in chars for ctxt in ("| %s |", "|%s|", "| C:%semp | b |", "| a%s", "| \\%s |")), check_row)
     return stats
 
